@@ -481,6 +481,13 @@ func checkMain(id string, args []string) int {
 	if len(allViol) > 0 {
 		os.WriteFile(filepath.Join(verif, ".work", id+"-violations.txt"), []byte(strings.Join(allViol, "\n")+"\n"), 0o644)
 	}
+	if len(samples) == 0 {
+		for _, r := range results {
+			if len(samples) < 3 {
+				samples = append(samples, fmt.Sprintf("job %q: %d evaluations", r.Name, r.Execs))
+			}
+		}
+	}
 	wall := time.Since(t0).Seconds()
 	exhaustive := len(capped) == 0 && exit != 2
 	cov := map[string]any{
